@@ -98,7 +98,7 @@ let () =
            | "frombase" -> res_limbs (frombase (bytes 0) (zi 1))
            | "from_bin" -> res_limbs (bn_from_bin (flag 0) (bytes 1))
            | "from_hex" -> res_limbs (bn_from_hex (flag 0) (bytes 1))
-           | "from_dec" -> res_limbs (bn_from_dec (bytes 0))
+           | "from_dec" -> (match bn_from_dec (bytes 0) with Ok (LInt x) -> hex_of_limbs x | Ok LFloat -> "float" | Err e -> err_s e)
            | "tohexint" -> res_str (tohexint (a 0) (optz 1))
            | "tobinint" -> res_str (tobinint (a 0) (optz 1))
            | "todecint" -> res_str (todecint (a 0))
